@@ -60,7 +60,7 @@ int32_t matrixSslValidatePeerCerts(ssl_t *ssl,
 {
     matrixValidateCertsOptions_t *opts;
     psX509Cert_t *foundIssuer;
-    int32_t rc;
+    int32_t rc, validateRc;
 
     opts = &ssl->validateCertsOpts;
 
@@ -79,18 +79,32 @@ int32_t matrixSslValidatePeerCerts(ssl_t *ssl,
         return MATRIXSSL_ERROR;
     }
 
+    validateRc = rc;
+
     psCheckSetPathLenFailure(ssl, ssl->sec.cert);
     rc = psCheckValidationResult(ssl,
             ssl->sec.cert);
-    if (rc < 0)
+
+    /* Same rule as for TLS 1.2 and below (parseCertificate): a chain that
+       validates only against itself is not authenticated when no trusted
+       CA certificates are loaded. */
+    if (ssl->err == SSL_ALERT_NONE &&
+        (ssl->keys == NULL || ssl->keys->CAcerts == NULL))
     {
+        ssl->err = SSL_ALERT_UNKNOWN_CA;
+        rc = MATRIXSSL_ERROR;
+    }
+    /* The return code of the validator counts, too: it can fail without
+       leaving a failure verdict on any certificate. */
+    if (validateRc < 0 || rc < 0)
+    {
+        if (ssl->err == SSL_ALERT_NONE)
+        {
+            ssl->err = SSL_ALERT_BAD_CERTIFICATE;
+        }
         if (ssl->sec.validateCert == NULL)
         {
             /* Internal validation failed and there is no user cert callback. */
-            if (ssl->err == SSL_ALERT_NONE)
-            {
-                ssl->err = SSL_ALERT_BAD_CERTIFICATE;
-            }
             return MATRIXSSL_ERROR;
         }
     }
